@@ -51,16 +51,9 @@ class MacroResolutionOrderVisitor(ExplorerScriptVisitor):
     def visitStart(self, ctx: ExplorerScriptParser.StartContext) -> list[str]:
         self.visitChildren(ctx)
         self._check_cycles()
-        roots = [v for v in self._dependency_graph.vs if len(v.in_edges()) == 0]
-        resolution_order: list[str] = []
-        for v in roots:
-            resolution_order_local = []
-            for sv in self._dependency_graph.bfsiter(v.index):
-                if sv["name"] in resolution_order:
-                    resolution_order.remove(sv["name"])
-                resolution_order_local.append(sv["name"])
-            resolution_order += resolution_order_local
-        return resolution_order
+        # The edges point from a macro to the macros that use it, so in a topological order
+        # every macro comes after all of the macros that it calls (directly or indirectly).
+        return [self._dependency_graph.vs[idx]["name"] for idx in self._dependency_graph.topological_sorting()]
 
     def visitMacrodef(self, ctx: ExplorerScriptParser.MacrodefContext) -> None:
         self._active_macro_name = str(ctx.IDENTIFIER())
